@@ -106,16 +106,15 @@ def first_local_header(data):
     payload = data[30 + nlen + elen:30 + nlen + elen + csize]
     return (sig == 0x04034b50, method, elen, name.decode('utf-8', 'replace'), payload, flag)
 
-def foreign_folders_sx(pk):
-    """the folders of embedded objects whose content.xml is not an OpenDocument part, as the library itself judges it
-    (odf.opendocument.__isOpenDocumentPart: the value of the model's parameter `foreign`), as an s-expression list"""
-    import odf.opendocument as O
+def foreign_folders_sx(pk, d):
+    """the folders of embedded objects whose content.xml is not an OpenDocument part (the value of the parameter `foreign` of the
+    load dispatch), judged by the model (FixPart.is_odf_part, tied to odf.opendocument.__isOpenDocumentPart by the correspondence
+    of the C05/C13 checks), as an s-expression list"""
     from vlib import sx_str
-    judge = O.__dict__.get('__isOpenDocumentPart')
     out = []
     for p, _ in (pk['manifest'] or []):
-        if p.startswith('Object ') and p.endswith('/content.xml') and p in pk['members'] and judge is not None:
+        if p.startswith('Object ') and p.endswith('/content.xml') and p in pk['members']:
             try:
-                if not judge(pk['members'][p].decode('utf-8')): out.append(p[:-11])
+                if d.call('fix_part', sx_str(pk['members'][p].decode('utf-8')))[4] != '1': out.append(p[:-11])
             except UnicodeDecodeError: pass
     return '(' + ' '.join(sx_str(f) for f in out) + ')'
